@@ -54,7 +54,8 @@ pub fn arb_c13s() -> BoxedStrategy<C13sCase> {
     let gate = prop_oneof![6 => Just(Vec::new()), 5 => act.clone().prop_map(|a| vec![a]), 1 => vec(act, 2..3)];
     let env = prop_oneof![3 => Just(PortEnv::Missing), 3 => Just(PortEnv::Served), 1 => Just(PortEnv::Silent), 2 => Just(PortEnv::HangUp)];
     (
-        20u16..35,
+        // one script in ten with a retry delay of zero: the wait state is announced and left at once
+        prop_oneof![9 => 20u16..35, 1 => Just(0u16)],
         1u16..=4,
         vec(env, 1..6),
         vec(gate, 2..12),
